@@ -45,8 +45,11 @@ type SrvOp struct {
 	DelayMs int    `json:"delay_ms,omitempty"`
 	After   bool   `json:"after,omitempty"`
 	Decoy   bool   `json:"decoy,omitempty"` // after a successful switch, republish the path served before with a decoy generation
-	SleepMs int    `json:"sleep_ms,omitempty"`
-	JumpS   int    `json:"jump_s,omitempty"`
+	// Target of a full reload: 0 = a fresh path; 1 = the path of the previous full reload if that one
+	// failed (made valid first: "retry the switch"); 2 = the path already served (republished)
+	SamePath int `json:"same_path,omitempty"`
+	SleepMs  int `json:"sleep_ms,omitempty"`
+	JumpS    int `json:"jump_s,omitempty"`
 }
 
 // Label names the reload class.
@@ -67,6 +70,12 @@ func (o SrvOp) Label(timeoutMs int) string {
 		l += "/timeout-late"
 	} else if o.DelayMs > 0 {
 		l += "/slow"
+	}
+	switch {
+	case o.Full && o.Fault == "" && o.SamePath == 1:
+		l += "/retry-path"
+	case o.Full && o.Fault == "" && o.SamePath == 2:
+		l += "/served-path"
 	}
 	return l
 }
@@ -360,6 +369,7 @@ func runSrv(t *testing.T, sc *SrvScenario, keep bool, res *core.Result, hooks *s
 
 		s.Go("operator", false, func() {
 			prevPath := ""
+			lastFailedFull := ""
 			servedPath := p0
 			for i, o := range sc.Ops {
 				if o.SleepMs > 0 {
@@ -393,7 +403,21 @@ func runSrv(t *testing.T, sc *SrvScenario, keep bool, res *core.Result, hooks *s
 				var sig dnsserver.ReloadSignal
 				served := servedPath // what the harness knows was last switched to, not what the server believes
 				var perr error
-				if o.Full {
+				if o.Full && o.Fault == "" && o.SamePath == 1 && lastFailedFull != "" {
+					// retry the switch that failed: the same path, now holding a valid generation
+					p := lastFailedFull
+					_ = os.RemoveAll(p)
+					perr = w.create(p, g, false)
+					rec.Path = p
+					sig = *dnsserver.NewFullReloadSignal(p)
+					res.Probe("full_reload_retried_to_same_path")
+				} else if o.Full && o.Fault == "" && o.SamePath == 2 {
+					// a full reload naming the path that is already served
+					perr = w.update(served, g, false)
+					rec.Path = served
+					sig = *dnsserver.NewFullReloadSignal(served)
+					res.Probe("full_reload_to_served_path")
+				} else if o.Full {
 					p := w.fresh("db")
 					switch o.Fault {
 					case "missing":
@@ -494,9 +518,15 @@ func runSrv(t *testing.T, sc *SrvScenario, keep bool, res *core.Result, hooks *s
 						}
 					}
 				}
-				if rec.OK && o.Full {
+				if rec.OK && o.Full && rec.Path != served {
 					prevPath = served
 					servedPath = rec.Path
+				}
+				if o.Full {
+					lastFailedFull = ""
+					if !rec.OK && rec.Path != served {
+						lastFailedFull = rec.Path
+					}
 				}
 			}
 		})
@@ -612,6 +642,9 @@ func drawSrv(rt *rapid.T, o srvDrawOpts) SrvScenario {
 		op.DelayMs = rapid.SampledFrom([]int{0, 0, 0, 0, 7, 23, 61, 97}).Draw(rt, "delay")
 		op.After = rapid.Bool().Draw(rt, "after")
 		op.Decoy = op.Full && rapid.Bool().Draw(rt, "decoy")
+		if op.Full && op.Fault == "" {
+			op.SamePath = rapid.SampledFrom([]int{0, 0, 0, 1, 1, 2}).Draw(rt, "same_path")
+		}
 		op.SleepMs = rapid.SampledFrom([]int{0, 0, 5, 31, 59}).Draw(rt, "osleep")
 		return op
 	})
